@@ -25,24 +25,24 @@ const fn b(world: &'static str, profile: &'static str, quick: u64, thorough: u64
 /// seed gives the same verdict on any machine.
 pub fn plan(prop: &str) -> Vec<Batch> {
     match prop {
-        "C02" => vec![b("A", "weak", 24_000, 700_000), b("A", "sc", 8_000, 200_000), b("A", "weakkill", 10_000, 300_000), b("A", "busy", 6_000, 150_000)],
-        "C03" => vec![b("A", "sc", 16_000, 400_000), b("A", "weak", 12_000, 300_000), b("A", "sckill", 8_000, 200_000), b("A", "sleeper", 14, 112), b("A", "busy", 4_000, 100_000)],
-        "C04" => vec![b("A", "sckill", 20_000, 500_000), b("A", "weakkill", 16_000, 400_000), b("A", "corrupt", 6_000, 150_000), b("B", "restart", 300, 6_000)],
-        "C11" => vec![b("A", "sweep", 4_096, 4_096), b("A", "sckill", 10_000, 300_000), b("A", "sc", 6_000, 100_000), b("A", "corrupt", 4_000, 100_000)],
-        "C16" => vec![b("A", "corrupt", 30_000, 800_000), b("A", "sckill", 4_000, 100_000)],
-        "C18" => vec![b("A", "busy", 10_000, 300_000), b("A", "sckill", 10_000, 300_000), b("A", "weakkill", 6_000, 200_000), b("A", "deadwriter", 48, 640)],
-        "C17" => vec![b("A", "sc", 6_000, 100_000), b("A", "corrupt", 6_000, 100_000), b("B", "abi", 600, 12_000), b("B", "synthetic", 1_500, 40_000)],
-        "C01" => vec![b("B", "pipeline", 2_400, 60_000), b("B", "restart", 1_200, 30_000), b("B", "tight", 1_600, 40_000)],
-        "C05" => vec![b("B", "synthetic", 4_000, 120_000), b("B", "pipeline", 1_200, 30_000)],
-        "C06" => vec![b("B", "synthetic", 4_000, 120_000), b("B", "outage", 1_200, 30_000)],
-        "C07" => vec![b("B", "formula", 3_000, 80_000), b("B", "pipeline", 1_200, 30_000)],
-        "C08" => vec![b("B", "pipeline", 1_600, 40_000), b("B", "outage", 1_600, 40_000), b("B", "restart", 800, 20_000)],
-        "C09" => vec![b("B", "coldstart", 2_400, 60_000), b("B", "restart", 1_200, 30_000)],
-        "C10" => vec![b("B", "leap", 3_000, 80_000), b("B", "pipeline", 800, 20_000)],
-        "C12" => vec![b("B", "tight", 2_400, 60_000), b("B", "pipeline", 1_200, 30_000)],
-        "C13" => vec![b("B", "outage", 3_000, 80_000), b("B", "coldstart", 1_200, 30_000)],
-        "C14" => vec![b("B", "synthetic", 5_000, 150_000), b("B", "pipeline", 800, 20_000)],
-        "C15" => vec![b("B", "workerdeath", 3_000, 80_000), b("B", "restart", 600, 15_000)],
+        "C02" => vec![b("A", "weak", 60_000, 1_500_000), b("A", "sc", 16_000, 300_000), b("A", "weakkill", 20_000, 500_000), b("A", "busy", 20_000, 400_000)],
+        "C03" => vec![b("A", "sc", 40_000, 800_000), b("A", "weak", 30_000, 600_000), b("A", "sckill", 16_000, 400_000), b("A", "sleeper", 14, 112), b("A", "busy", 10_000, 200_000)],
+        "C04" => vec![b("A", "sckill", 30_000, 600_000), b("A", "weakkill", 20_000, 500_000), b("A", "corrupt", 8_000, 200_000), b("B", "restart", 8_000, 200_000)],
+        "C11" => vec![b("A", "sweep", 4_096, 4_096), b("A", "sckill", 20_000, 400_000), b("A", "sc", 10_000, 200_000), b("A", "corrupt", 8_000, 200_000)],
+        "C16" => vec![b("A", "corrupt", 60_000, 1_500_000), b("A", "sckill", 6_000, 100_000), b("B", "abi", 4_000, 80_000)],
+        "C18" => vec![b("A", "busy", 20_000, 400_000), b("A", "sckill", 20_000, 400_000), b("A", "weakkill", 10_000, 300_000), b("A", "deadwriter", 16, 480)],
+        "C17" => vec![b("A", "sc", 8_000, 100_000), b("A", "corrupt", 8_000, 100_000), b("B", "abi", 16_000, 400_000), b("B", "synthetic", 16_000, 400_000)],
+        "C01" => vec![b("B", "pipeline", 24_000, 600_000), b("B", "restart", 12_000, 300_000), b("B", "tight", 16_000, 400_000), b("B", "coldstart", 8_000, 200_000), b("B", "outage", 8_000, 200_000)],
+        "C05" => vec![b("B", "synthetic", 30_000, 800_000), b("B", "pipeline", 12_000, 300_000), b("B", "tight", 6_000, 100_000)],
+        "C06" => vec![b("B", "synthetic", 30_000, 800_000), b("B", "outage", 12_000, 300_000), b("B", "pipeline", 6_000, 100_000)],
+        "C07" => vec![b("B", "formula", 30_000, 800_000), b("B", "pipeline", 12_000, 300_000), b("B", "tight", 6_000, 100_000)],
+        "C08" => vec![b("B", "pipeline", 16_000, 400_000), b("B", "outage", 16_000, 400_000), b("B", "restart", 8_000, 200_000), b("B", "leap", 8_000, 200_000)],
+        "C09" => vec![b("B", "coldstart", 24_000, 600_000), b("B", "restart", 12_000, 300_000), b("B", "outage", 8_000, 200_000)],
+        "C10" => vec![b("B", "leap", 30_000, 800_000), b("B", "pipeline", 8_000, 200_000)],
+        "C12" => vec![b("B", "tight", 24_000, 600_000), b("B", "pipeline", 12_000, 300_000)],
+        "C13" => vec![b("B", "outage", 30_000, 800_000), b("B", "coldstart", 12_000, 300_000), b("B", "pipeline", 6_000, 100_000)],
+        "C14" => vec![b("B", "synthetic", 40_000, 1_000_000), b("B", "pipeline", 8_000, 200_000)],
+        "C15" => vec![b("B", "workerdeath", 30_000, 800_000), b("B", "restart", 6_000, 150_000), b("B", "outage", 6_000, 150_000)],
         _ => vec![],
     }
 }
@@ -494,7 +494,7 @@ fn write_replay(prop: &str, world: &str, profile: &str, index: u64, seed: u64, c
     let v = out.violations.iter().find(|v| v.props.contains(&prop_static(prop)) && v.oracle == oracle && v.sig == sig)?;
     let dir = verif_root().join("replays");
     let _ = std::fs::create_dir_all(&dir);
-    let path = dir.join(format!("{prop}-{seed:016x}.json"));
+    let path = dir.join(format!("{prop}-{seed:016x}-{:08x}.json", str_hash(&format!("{oracle}|{sig}")) as u32));
     let j = json!({
         "property": prop, "world": world, "profile": profile, "index": index, "seed": seed,
         "config": cfg.to_json(), "decisions": rle(dec), "n_decisions": dec.len(),
@@ -843,7 +843,7 @@ pub fn one(world: &str, profile: &str, base: u64, index: u64) -> i32 {
     println!("counters: {:?}", rep.counters);
     println!("probes: {:?}", out.probes);
     println!("nontrivial: {:?}", out.nontrivial);
-    for l in render_trace(&rep, 400) {
+    for l in render_trace(&rep, std::env::var("VERIF_TRACE_N").ok().and_then(|s| s.parse().ok()).unwrap_or(400)) {
         println!("  {l}");
     }
     if let Some(s) = &out.sample {
